@@ -11,7 +11,7 @@ import z3
 
 from .sorts import (SV, PyVal, PyTuple, Closure, BoundMethod, ModuleRef, ClassRef, SpecFn, Sort, INT, BOOL, STR, REAL, VAL, NONE,
                     NONE_V, RefT, SeqT, SetT, MapT, TupT, Val, Ref, null, zsort, fresh, const, mk_bool, mk_int, mk_str, fresh_name)
-from .values import (OutsideSubset, coerce, box, unbox, py_eq, truthy, ite, tup_items, empty_map, join_sort, is_ref,
+from .values import (nth, OutsideSubset, coerce, box, unbox, py_eq, truthy, ite, tup_items, empty_map, join_sort, is_ref,
                      int_to_str, default_term)
 from .state import St, Obligation, PyRaise, PathEnd, EXC_BASES
 from .expr import ExprMixin
@@ -210,8 +210,8 @@ class Exec(ExprMixin, StmtMixin, CallMixin):
         k = z3.Const(fresh_name('k'), zk)
         i, j = z3.Int(fresh_name('i')), z3.Int(fresh_name('j'))
         keys = m.c['keys']
-        st.assume(z3.ForAll([k], z3.Select(m.c['dom'], k) == z3.Contains(keys, z3.Unit(k))))
-        st.assume(z3.ForAll([i, j], z3.Implies(z3.And(0 <= i, i < j, j < z3.Length(keys)), keys[i] != keys[j])))
+        st.assume(z3.ForAll([k], z3.Select(m.c['dom'], k) == z3.Exists([i], z3.And(0 <= i, i < z3.Length(keys), nth(keys, i) == k))))
+        st.assume(z3.ForAll([i, j], z3.Implies(z3.And(0 <= i, i < j, j < z3.Length(keys)), nth(keys, i) != nth(keys, j))))
 
     def run(self):
         """Symbolically execute the function under its contract; fills self.obls."""
@@ -237,6 +237,7 @@ class Exec(ExprMixin, StmtMixin, CallMixin):
             self.taken = []
             self.nchoices = 0
             self.paths += 1
+            self.record_len = {}
             if self.paths > MAX_PATHS:
                 raise OutsideSubset('more than %d paths' % MAX_PATHS)
             st = St()
@@ -274,7 +275,23 @@ class Exec(ExprMixin, StmtMixin, CallMixin):
         else:
             result = NONE_V
         self.exits['normal'] += 1
+        self.apply_ghost_exit(st, result)
         self.check_normal_exit(st, result)
+
+    def apply_ghost_exit(self, st, result):
+        """ghost assignments at the normal exit point (witnesses for the abstract state), given by the sidecar"""
+        for target, text in self.ct.ghost.get('exit', []):
+            gs = st.fork()
+            gs.env = dict(st.old.env)
+            gs.env['result'] = result
+            gs.pc = st.pc
+            val = self.spec_eval(text, gs)
+            base, _, attr = target.rpartition('.')
+            recv = self.spec_eval(base, gs)
+            key = self.reg.field_key(recv.sort.cls, attr)
+            if key is None:
+                raise OutsideSubset('ghost exit assignment to unknown field %s' % target)
+            self.heap_set(st, key, recv.t, val)
 
     def check_normal_exit(self, st, result):
         ct = self.ct
